@@ -1,5 +1,6 @@
 import Nstd.Common.Basic
 import Nstd.Xml.Model
+import Nstd.Xml.EscapeMem
 /-
   Line protocol of the Xml area (C16).  One op per line, one observation line per op.
     reset                 -> ready
@@ -8,6 +9,8 @@ import Nstd.Xml.Model
     rt <tree>             -> ok <dump> | fail ... (parse (Xml::toString tree))
     esc <0|1> <hex>       -> str <hex>            (escapeString, text / attribute value)
     unesc <hex>           -> str <hex>
+    escm <0|1> <hex>      -> mem <capacity> <hex> | FAULT overflow   (escapeString called directly: the bytes
+                             and the capacity of the String it returns — its buffer management)
     deep <tree> <depth>   -> dp <tree A> <tree B> <first child W>  (B(A), then a write `depth` levels down the
                              first-element-child path of B through mutable toElement(); W a Variant assigned
                              from A's first child and renamed; A printed after the writes)
@@ -189,6 +192,14 @@ def stepLine (_ : Unit) (ws : List String) : Unit × String :=
       else if m == "0" then ((), "str " ++ hexTok (escape false bs))
       else if m == "1" then ((), "str " ++ hexTok (escape true bs))
       else ((), "bad-op")
+    | none => ((), "bad-op")
+  | ["escm", m, h] =>
+    match bytesOfHex h with
+    | some bs =>
+      if bs.contains 0 || (m != "0" && m != "1") then ((), "bad-op")
+      else match escapeMem (m == "1") bs with
+        | some b => ((), s!"mem {b.cap} " ++ hexTok b.out)
+        | none => ((), "FAULT overflow")
     | none => ((), "bad-op")
   | ["unesc", h] =>
     match bytesOfHex h with
